@@ -5,6 +5,7 @@ import (
 	"go/token"
 	"go/types"
 	"strings"
+	"sync"
 
 	"golang.org/x/tools/go/cfg"
 	"golang.org/x/tools/go/packages"
@@ -135,6 +136,24 @@ func (e *c15env) field(n *types.Named, what, pref string, pred func(types.Type) 
 			cands = append(cands, st.Field(i))
 		}
 	}
+	if len(cands) == 0 {
+		// the field moved into a sub-struct of the package (embedded or named, value or pointer): s.out.pending
+		for i := 0; i < st.NumFields(); i++ {
+			sub, ok := c15deref(st.Field(i).Type()).(*types.Named)
+			if !ok || sub.Obj().Pkg() != e.pkg.Types || e.anchored(sub) {
+				continue
+			}
+			ss, ok := sub.Underlying().(*types.Struct)
+			if !ok {
+				continue
+			}
+			for j := 0; j < ss.NumFields(); j++ {
+				if pred(ss.Field(j).Type()) {
+					cands = append(cands, ss.Field(j))
+				}
+			}
+		}
+	}
 	switch len(cands) {
 	case 0:
 		e.c.Errorf("anchor: %s has no field playing the role: %s", n.Obj().Name(), what)
@@ -149,6 +168,16 @@ func (e *c15env) field(n *types.Named, what, pref string, pred func(types.Type) 
 	}
 	e.c.Errorf("anchor: %d fields of %s fit the role: %s", len(cands), n.Obj().Name(), what)
 	return nil
+}
+
+// anchored reports whether n is one of the long-lived types whose fields are roles of their own.
+func (e *c15env) anchored(n *types.Named) bool {
+	for _, a := range []*types.Named{e.sessT, e.clientT, e.brokerT, e.topicMgrT} {
+		if a != nil && types.Identical(a, n) {
+			return true
+		}
+	}
+	return n.Obj().Name() == "SessionManager" || n.Obj().Name() == "SessionInfo"
 }
 
 // pick chooses the function playing a role.
@@ -410,6 +439,9 @@ func c15callee(g *flow.Func, call *ast.CallExpr) (types.Object, ast.Expr) {
 	}
 	switch o := typeutil.Callee(g.Info, call).(type) {
 	case *types.Func:
+		if impl := c15soleImpl(g, o); impl != nil {
+			o = impl // an unexported interface in front of its single implementation
+		}
 		var recv ast.Expr
 		if sel, ok := fun.(*ast.SelectorExpr); ok {
 			if s := g.Info.Selections[sel]; s != nil {
@@ -571,10 +603,19 @@ type c15trace struct {
 	live   func(h *flow.Func, r *ast.ReturnStmt) bool // nil = every return statement counts
 	vars   map[types.Object]bool                      // every variable passed through
 	seen   map[ast.Node]bool                          // cycle guard
+	ctx    []c15ctx                                   // the calls whose results the trace is inside of
+	varCtx map[types.Object][]c15ctx                  // the calls the trace was inside of when it first passed through a variable
+}
+
+// c15ctx: the trace entered h by following the result of call (made in caller).
+type c15ctx struct {
+	h      *flow.Func
+	call   *ast.CallExpr
+	caller *flow.Func
 }
 
 func (e *c15env) trace(opaque ...*flow.Func) *c15trace {
-	t := &c15trace{e: e, opaque: map[types.Object]bool{}, vars: map[types.Object]bool{}, seen: map[ast.Node]bool{}}
+	t := &c15trace{e: e, opaque: map[types.Object]bool{}, vars: map[types.Object]bool{}, seen: map[ast.Node]bool{}, varCtx: map[types.Object][]c15ctx{}}
 	for _, f := range opaque {
 		if o := e.obj(f); o != nil {
 			t.opaque[o] = true
@@ -604,6 +645,9 @@ func (t *c15trace) walk(g *flow.Func, x ast.Expr, depth int) []c15term {
 		if !ok || o.IsField() || o.Pkg() == nil || o.Parent() == nil || o.Parent() == o.Pkg().Scope() {
 			return term
 		}
+		if !t.vars[o] {
+			t.varCtx[o] = append([]c15ctx(nil), t.ctx...)
+		}
 		t.vars[o] = true
 		if pi, isRecv, ok := t.e.paramIndex(o); ok {
 			h := t.e.fnAt(o.Pos())
@@ -611,6 +655,19 @@ func (t *c15trace) walk(g *flow.Func, x ast.Expr, depth int) []c15term {
 				return term
 			}
 			sites := t.e.sites[t.e.obj(h)]
+			// the trace came into h through one particular call (following its result): the parameter is
+			// the argument of THAT call, not of the other callers of a shared helper
+			for k := len(t.ctx) - 1; k >= 0; k-- {
+				if t.ctx[k].h.Body == h.Body {
+					c := t.ctx[k]
+					_, recv := c15callee(c.caller, c.call)
+					sites = []c15site{{fn: c.caller, call: c.call, recv: recv}}
+					saved := t.ctx
+					t.ctx = t.ctx[:k]
+					defer func() { t.ctx = saved }()
+					break
+				}
+			}
 			if len(sites) == 0 {
 				return term
 			}
@@ -826,6 +883,8 @@ func (t *c15trace) result(g *flow.Func, x ast.Expr, i, depth int) []c15term {
 	}
 	var out []c15term
 	n := 0
+	t.ctx = append(t.ctx, c15ctx{h, call, g})
+	defer func() { t.ctx = t.ctx[:len(t.ctx)-1] }()
 	ast.Inspect(h.Body, func(nd ast.Node) bool {
 		switch r := nd.(type) {
 		case *ast.FuncLit:
@@ -1457,4 +1516,58 @@ func (e *c15env) analyse(f *flow.Func, fns []*flow.Func, conf flow.Config) *c15r
 		}
 	}
 	return run
+}
+
+var (
+	c15implMu  sync.Mutex
+	c15implMap = map[*types.Func]*types.Func{}
+)
+
+// c15soleImpl: m is a method of an interface declared in g's package and exactly one named type of
+// the package implements that interface — then the method of that type (nil otherwise).
+func c15soleImpl(g *flow.Func, m *types.Func) *types.Func {
+	sig, ok := m.Type().(*types.Signature)
+	if !ok || sig.Recv() == nil || g.Pkg == nil || m.Pkg() != g.Pkg.Types {
+		return nil
+	}
+	iface, ok := sig.Recv().Type().Underlying().(*types.Interface)
+	if !ok {
+		return nil
+	}
+	c15implMu.Lock()
+	defer c15implMu.Unlock()
+	if r, ok := c15implMap[m]; ok {
+		return r
+	}
+	var found *types.Func
+	n := 0
+	scope := g.Pkg.Types.Scope()
+	for _, name := range scope.Names() {
+		tn, ok := scope.Lookup(name).(*types.TypeName)
+		if !ok || tn.IsAlias() {
+			continue
+		}
+		nt, ok := tn.Type().(*types.Named)
+		if !ok || types.IsInterface(nt) {
+			continue
+		}
+		var recv types.Type
+		switch {
+		case types.Implements(nt, iface):
+			recv = nt
+		case types.Implements(types.NewPointer(nt), iface):
+			recv = types.NewPointer(nt)
+		default:
+			continue
+		}
+		n++
+		if obj, _, _ := types.LookupFieldOrMethod(recv, true, g.Pkg.Types, m.Name()); obj != nil {
+			found, _ = obj.(*types.Func)
+		}
+	}
+	if n != 1 {
+		found = nil
+	}
+	c15implMap[m] = found
+	return found
 }
